@@ -432,15 +432,20 @@ pub fn boundary_prefix(rng: &mut Rng, plan: &mut Plan) {
     if plan.keys.is_empty() {
         return;
     }
-    let r = rng.below(9) as u32;
-    let klen = plan.keys[0].len() as u32;
-    if klen >= 100 {
-        // huge-key plans are not aligned (the key-length varint and the value size would differ)
-        return;
+    // r = 0..8 bytes before the boundary, or (one time in three) 1..200 bytes beyond it, i.e. a record
+    // fragmented into First + Last
+    let r: i64 = if rng.chance(1, 3) { -(1 + rng.below(200) as i64) } else { rng.below(9) as i64 };
+    // a key of its own, which no other operation of the plan touches (so the big record's value is
+    // still the visible one when the image is inspected)
+    let bk = b"~bnd".to_vec();
+    if !plan.keys.contains(&bk) {
+        plan.keys.push(bk);
     }
+    let bki = plan.keys.len() - 1;
+    let klen = plan.keys[bki].len() as u32;
     // physical header 7 + sequence 8 + count 1 + operation 1 + key length 1 + key + value length 3 + value
-    let vlen = 32768 - 21 - klen - r;
-    let mut pre = vec![Op::Put { k: 0, v: Val { tag: 900_000 + r, len: vlen } }];
+    let vlen = (32768 - 21 - klen as i64 - r) as u32;
+    let mut pre = vec![Op::Put { k: bki, v: Val { tag: (900_300 + r) as u32, len: vlen } }];
     // half of the time the log is closed and reopened right at the boundary (reuse_log_files then
     // appends to a log that ends 0-8 bytes before it), and again after the small writes
     let reopen = rng.chance(1, 2);
@@ -448,11 +453,11 @@ pub fn boundary_prefix(rng: &mut Rng, plan: &mut Plan) {
         pre.push(Op::Reopen { idx: 0 });
     }
     for j in 0..(1 + rng.below(3)) as u32 {
-        pre.push(Op::Put { k: (1 + j as usize) % plan.keys.len(), v: Val { tag: 900_100 + j, len: 12 + rng.below(40) as u32 } });
+        pre.push(Op::Put { k: (j as usize) % bki.max(1), v: Val { tag: 900_600 + j, len: 12 + rng.below(40) as u32 } });
     }
     if reopen {
         pre.push(Op::Reopen { idx: 0 });
-        pre.push(Op::Get { k: 0 });
+        pre.push(Op::Get { k: bki });
     }
     plan.ops.splice(0..0, pre);
 }
